@@ -26,6 +26,9 @@ type Scenario struct {
 	Weight     int      // relative share of runs (default 1)
 	Race       bool     // meaningful only in the race build
 	NoRace     bool     // skip in the race build
+	// DeadlockDirected: runs that show a lock-order candidate are re-executed with the
+	// deadlock-directed scheduler (directed.go)
+	DeadlockDirected bool
 }
 
 var registry = map[string][]*Scenario{}
@@ -88,10 +91,16 @@ type RunResult struct {
 	ToolErr    string         `json:"tool_err,omitempty"`
 	Race       bool           `json:"race_build"`
 	StateKeys  []string       `json:"-"`
+	LockCycles []simrt.LockCycle `json:"-"`
 }
 
 // runOnce executes one run of scenario sc driven by tape inside a fresh synctest bubble.
 func runOnce(t *testing.T, sc *Scenario, tape *Tape, keepLog bool) (res RunResult) {
+	return runOnceOpt(t, sc, tape, keepLog, nil)
+}
+
+// runOnceOpt: dir != nil makes the run a deadlock-directed re-execution (directed.go).
+func runOnceOpt(t *testing.T, sc *Scenario, tape *Tape, keepLog bool, dir *directedCfg) (res RunResult) {
 	res.Prop, res.Variant, res.Race = sc.Prop, sc.Name, simrt.RaceBuild
 	wall := time.Now()
 	defer func() {
@@ -119,6 +128,7 @@ func runOnce(t *testing.T, sc *Scenario, tape *Tape, keepLog bool) (res RunResul
 	bubble(func(t *testing.T) {
 		w := newWorld(sc.Prop, tape)
 		w.KeepLog = keepLog
+		w.dir = dir
 		tape.Trace = keepLog
 		w.Start = time.Now()
 		w.S = simrt.New()
@@ -189,6 +199,9 @@ func fillResult(res *RunResult, w *World, sc *Scenario) {
 	res.Strategy = w.strat
 	res.Log = w.Log
 	res.Labels = w.T.Labels
+	if sc.DeadlockDirected && w.dir == nil {
+		res.LockCycles = w.S.LockCycles()
+	}
 	for k := range w.States {
 		res.StateKeys = append(res.StateKeys, k)
 	}
@@ -434,6 +447,7 @@ func WorkerMain(t *testing.T) {
 	}
 	start := time.Now()
 	seenSig := map[string]bool{}
+	triedCycle := map[string]int{}
 	nviol := 0
 	done := 0
 	for i := cfg.Worker; i < cfg.Runs; i += cfg.Workers {
@@ -455,24 +469,62 @@ func WorkerMain(t *testing.T) {
 			}
 			enc.Encode(map[string]any{"recheck": true, "run_index": i, "ok": again.LogHash == res.LogHash})
 		}
-		if len(res.Violations) > 0 && res.ToolErr == "" {
-			for _, v := range res.Violations {
-				if seenSig[v.Signature] || nviol >= cfg.MaxViol {
+		report := func(res RunResult) {
+			if len(res.Violations) > 0 && res.ToolErr == "" {
+				for _, v := range res.Violations {
+					if seenSig[v.Signature] || nviol >= cfg.MaxViol {
+						continue
+					}
+					seenSig[v.Signature] = true
+					nviol++
+					rf := ReplayFile{Property: cfg.Prop, Variant: sc.Name, Signature: v.Signature, Detail: v.Detail, VerifSeed: cfg.Seed, RunIndex: i, RunSeed: seed,
+						Race: simrt.RaceBuild, StmtFiles: cfg.StmtFiles, Tape: res.Tape.Clone(), OrigLen: res.Tape.Len(), LogHash: res.LogHash,
+						Toolchain: goVersion()}
+					enc.Encode(map[string]any{"replay": rf})
+				}
+			}
+			res.Tape = nil
+			if !cfg.Dump {
+				res.Log, res.Labels = nil, nil
+			}
+			enc.Encode(map[string]any{"run": res, "state_keys": hexKeys(res.StateKeys)})
+		}
+		// deadlock-directed re-executions of this run, one per lock-order candidate it showed
+		var directed []RunResult
+		if sc.DeadlockDirected && res.ToolErr == "" && len(res.Violations) == 0 {
+			for _, c := range res.LockCycles {
+				if triedCycle[c.Key()] >= 8 {
 					continue
 				}
-				seenSig[v.Signature] = true
-				nviol++
-				rf := ReplayFile{Property: cfg.Prop, Variant: sc.Name, Signature: v.Signature, Detail: v.Detail, VerifSeed: cfg.Seed, RunIndex: i, RunSeed: seed,
-					Race: simrt.RaceBuild, StmtFiles: cfg.StmtFiles, Tape: res.Tape.Clone(), OrigLen: res.Tape.Len(), LogHash: res.LogHash,
-					Toolchain: goVersion()}
-				enc.Encode(map[string]any{"replay": rf})
+				triedCycle[c.Key()]++
+				tp := NewTapeReplay(res.Tape)
+				tp.Override = directedOverride()
+				dres := runOnceOpt(t, sc, tp, false, newDirected(c, seed+uint64(triedCycle[c.Key()])))
+				dres.RunIndex, dres.RunSeed = i, seed
+				if dres.Probes == nil {
+					dres.Probes = map[string]int{}
+				}
+				dres.Probes["deadlock-directed-run"]++
+				if len(dres.Violations) > 0 && dres.ToolErr == "" {
+					// the tape a directed run leaves must replay under the ordinary policy
+					again := runOnce(t, sc, NewTapeReplay(dres.Tape), false)
+					if again.LogHash != dres.LogHash {
+						dres.ToolErr = fmt.Sprintf("directed run %d (%s) does not replay under the ordinary policy (%s vs %s)", i, c.Key(), dres.LogHash, again.LogHash)
+					}
+				}
+				directed = append(directed, dres)
+			}
+			if len(res.LockCycles) > 0 {
+				if res.Probes == nil {
+					res.Probes = map[string]int{}
+				}
+				res.Probes["lock-order-candidate-seen"] += len(res.LockCycles)
 			}
 		}
-		res.Tape = nil
-		if !cfg.Dump {
-			res.Log, res.Labels = nil, nil
+		report(res)
+		for _, d := range directed {
+			report(d)
 		}
-		enc.Encode(map[string]any{"run": res, "state_keys": hexKeys(res.StateKeys)})
 	}
 	enc.Encode(map[string]any{"worker_done": true, "worker": cfg.Worker, "runs": done, "wall_s": time.Since(start).Seconds(), "race_errors": simrt.RaceErrors()})
 }
